@@ -107,6 +107,23 @@ def run_triple(c, res):
         if np.any(np.diff(bs) < 0) or np.ma.getmaskarray(inv.transform_non_affine(xs)).any():
             res.violation('inverse-decreasing', '%s: the inverse is not non-decreasing / masks in-range data values' % what, one)
             continue
+        # data values held in integer types (raw channel numbers) and single numbers get the display coordinate of the same value as a float
+        if T >= 10:
+            iv = np.unique(np.round(np.linspace(0, min(T, 60000.0), 41))).astype(np.int64)
+            ref_i = np.asarray(inv.transform_non_affine(iv.astype(float)), dtype=float)
+            badi = None
+            for typ in (np.int64, np.int32, np.uint16, np.float32):
+                got_i = np.asarray(inv.transform_non_affine(iv.astype(typ)), dtype=float)
+                if np.any(np.abs(got_i - ref_i) > 1e-4 * M):
+                    badi = typ.__name__
+                    break
+            if badi is None:
+                sc = float(np.asarray(inv.transform_non_affine(np.int64(iv[len(iv) // 2]))))
+                if abs(sc - ref_i[len(iv) // 2]) > 1e-4 * M:
+                    badi = 'np.int64 scalar'
+            if badi:
+                res.violation('inverse-integer-input', '%s: the inverse of whole-number data values held as %s differs from the inverse of the same values as floats by more than 1e-4*M' % (what, badi), one)
+                continue
         res.counters['max_inverse_error_over_M_x1e9'] = max(res.counters['max_inverse_error_over_M_x1e9'], int(float(ierr.max()) / M * 1e9))
         res.ok('triple', W > 0)
     res.sample({'T': T, 'M': M, 'W_over_M': c['wr'], 'display_points': n})
@@ -310,6 +327,24 @@ def run_derive(c, res):
                 res.violation('derive:empty-params', 'logicle(data=%s) gives %r, the documented rules give %r' % (label, (t.T, t.M, t.W), (T, M, W)), dict(c))
             else:
                 res.ok('derive:empty', True)
+    # events above the top of a known range (compensated data) do not change T: it is the range
+    if cont in ('fcs', 'fcs-list'):
+        import FlowCal as _F
+        over = d0.copy()
+        over[0, 1] = 3.1e5
+        over[1, 1] = 2.0e6
+        over[2, 0] = float(np.nextafter(ranges[0] - 1.0, 1e9))
+        for data_, label in ((over, 'a sample with events above its range'), ([d1, over], 'the same in a list')):
+            for ch in (0, 1):
+                try:
+                    t = L(data=data_, channel=ch)
+                except Exception as e:
+                    res.violation('derive:above-range-raises:%s' % type(e).__name__, 'logicle(data=%s, channel=%d) raised %s: %s' % (label, ch, type(e).__name__, e), dict(c))
+                    continue
+                if abs(float(t.T) - (ranges[ch] - 1)) > ptol * ranges[ch]:
+                    res.violation('derive:above-range-T', 'logicle(data=%s, channel=%d) has T = %r, the channel range is %r' % (label, ch, float(t.T), ranges[ch] - 1), dict(c))
+                else:
+                    res.ok('derive:above-range', True)
     # multidimensional data without a channel is refused
     if cont in ('fcs', 'array'):
         try:
